@@ -289,14 +289,22 @@ def main():
     for v in sorted(segs):
         kn.append('  if version == %s then [%s] else\n' % (q(v), ', '.join(q(n) for n in segs[v])))
     kn.append('  []\n')
+    sts = ex.get('structs', {})
+    kn.append('def structExcluded (version : String) : List String :=\n')
+    for v in sorted(sts):
+        kn.append('  if version == %s then [%s] else\n' % (q(v), ', '.join(q(n) for n in sts[v])))
+    kn.append('  []\n')
     kn.append('end Hl7.Gen.Known\n')
     changed += write('Known.lean', ''.join(kn))
     # per-version kernel obligations, instantiated from the committed template
     tpl = open(os.path.join(os.path.dirname(os.path.abspath(__file__)), '..', 'lean', 'templates', 'TableObligations.lean.in'),
                encoding='utf-8').read()
+    tpl2 = open(os.path.join(os.path.dirname(os.path.abspath(__file__)), '..', 'lean', 'templates', 'TableObligationsInst.lean.in'),
+                encoding='utf-8').read()
     for v in versions:
         tag = 'V' + v.replace('.', '_')
         changed += write('Ob%s.lean' % tag, tpl.replace('@TAG@', tag).replace('@VER@', v))
+        changed += write('ObInst%s.lean' % tag, tpl2.replace('@TAG@', tag).replace('@VER@', v))
     # stale files
     for fn in os.listdir(OUT):
         if fn.endswith('.lean') and fn not in written:
